@@ -226,7 +226,23 @@ func (ir *ifdReader) parseExposureTime(t Tag) meta.ExposureTime {
 func (ir *ifdReader) parseExposureBias(t Tag) meta.ExposureBias {
 	if !t.IsEmbedded() {
 		r := ir.ParseRationalU(t)
-		return meta.NewExposureBias(int16(r[0]), int16(r[1]))
+		// ExposureBias holds an 8-bit numerator and denominator: cameras that
+		// write hundredths ("200/100", "-300/100") need the fraction reduced
+		n, d := int32(r[0]), int32(r[1])
+		a, b := n, d
+		if a < 0 {
+			a = -a
+		}
+		if b < 0 {
+			b = -b
+		}
+		for b != 0 {
+			a, b = b, a%b
+		}
+		if a > 1 {
+			n, d = n/a, d/a
+		}
+		return meta.NewExposureBias(int16(n), int16(d))
 	}
 	if ir.logLevelWarn() {
 		t.logTag(ir.logWarn()).Msg("Unrecognized tag type")
